@@ -203,3 +203,152 @@ def handle : Handler := fun s =>
   r.getD (badInput "c16: cannot parse case")
 
 end Fontc.Driver.C16
+
+/-! ## c16e2e: GSUB FeatureVariations of a font built by the real fontc from a designspace with `<rules>` -/
+namespace Fontc.Driver.C16
+open Fontc Fontc.FeatVars Fontc.Driver
+
+def parseNormBox (n : Nat) (s : Sexp) : Option NBox := do
+  let es ← s.mapM? fun e =>
+    match e with
+    | .list [a, lo, hi] => do some (← a.asNat?, ← lo.asRat?, ← hi.asRat?)
+    | _ => none
+  some (es.foldl (fun b (a, lo, hi) => b.set a (some (lo, hi))) (emptyBox n))
+
+structure FvRecord where
+  conds : List (Nat × Rat × Rat)
+  substs : List (Nat × List Nat)
+
+def parseRecord (s : Sexp) : Option FvRecord :=
+  match s with
+  | .list [cs, ss] => do
+    let conds ← cs.mapM? fun e =>
+      match e with
+      | .list [a, lo, hi] => do some (← a.asNat?, ← lo.asRat?, ← hi.asRat?)
+      | _ => none
+    let substs ← ss.mapM? fun e =>
+      match e with
+      | .list [fi, ls] => do some (← fi.asNat?, ← ls.mapM? Sexp.asNat?)
+      | _ => none
+    some ⟨conds, substs⟩
+  | _ => none
+
+def condHolds (p : Point) (c : Nat × Rat × Rat) : Bool :=
+  match p[c.1]? with
+  | some x => decide (c.2.1 ≤ x) && decide (x ≤ c.2.2)
+  | none => false
+
+/-- the lookup indices a shaping engine applies at `p`: for every feature the alternate lookup list of the
+    first matching record (or the feature's own list), all merged, in lookup-list order -/
+def activeLookups (features : List (List Nat)) (records : List FvRecord) (p : Point) : List Nat :=
+  let rec? := records.find? fun r => r.conds.all (condHolds p)
+  let perFeature := features.zipIdx.map fun (base, fi) =>
+    match rec? with
+    | some r => (r.substs.lookup fi).getD base
+    | none => base
+  (perFeature.flatten.eraseDups).mergeSort (fun a b => a ≤ b)
+
+/-- apply single-substitution lookups one after the other -/
+def applyLookups (lookups : List Subs) (order : List Nat) (g : Nat) : Nat :=
+  order.foldl (fun g i => match lookups[i]? with
+    | some m => (subsGet m g).getD g
+    | none => g) g
+
+/-- lexicographic order of `BTreeMap<GlyphName,GlyphName>` (glyph numbers are in name order) -/
+def subsLe : Subs → Subs → Bool
+  | [], _ => true
+  | _ :: _, [] => false
+  | (a, b) :: as, (c, d) :: cs =>
+    if a < c then true else if c < a then false
+    else if b < d then true else if d < b then false
+    else subsLe as cs
+
+/-- fontbe `make_substitution_lookups`: one lookup per distinct map, in sorted-map order; a record applies its
+    maps in that order -/
+def applySortedMaps (ms : List Subs) (g : Nat) : Nat :=
+  (insSort subsLe ms).foldl (fun g m => (subsGet m g).getD g) g
+
+/-- `NBox::to_condition_set` (fontir/src/feature_variations.rs:48-69) without the F2Dot14 rounding: conditions
+    equal to the axis' whole normalized range are dropped -/
+def toCondSet (range : List (Rat × Rat)) (b : NBox) : List (Nat × Rat × Rat) :=
+  (entries b).filter fun (a, lo, hi) => (lo, hi) != range.getD a (-1, 1)
+
+/-- fea-rs keeps the variations of a feature in a map keyed by condition set (feature_writer.rs:481-509: a later
+    equal condition set replaces the value) and orders records by first use (compile_ctx.rs:2340) -/
+def assembleRecords {ν} (recs : List (List (Nat × Rat × Rat) × ν)) : List (List (Nat × Rat × Rat) × ν) :=
+  recs.foldl (fun acc (k, v) => imUpsert k v (fun _ => v) acc) []
+
+def cellPoints (n : Nat) (range : List (Rat × Rat)) (boxes : List NBox) : List Point :=
+  let perAxis : List (List Rat) := (List.range n).map fun a =>
+    let (lo, hi) := range.getD a (-1, 1)
+    let bs := boxes.flatMap fun b => match b[a]? with
+      | some (some (x, y)) => [x, y]
+      | _ => []
+    let bs := ((lo :: hi :: bs).filter fun x => decide (lo ≤ x) && decide (x ≤ hi)).eraseDups
+    let bs := bs.mergeSort (fun a b => decide (a ≤ b))
+    if bs.length ≤ 1 then bs else (bs.zip (bs.drop 1)).map fun (x, y) => (x + y) / 2
+  perAxis.foldr (fun xs acc => xs.flatMap fun x => acc.map fun p => x :: p) [[]]
+
+def handleE2E : Handler := fun s =>
+  let r : Option Verdict := do
+    let n ← (← s.field1? "naxes").asNat?
+    let conflictMode := (← (← s.field1? "conflict").asNat?) == 1
+    let range ← (← s.field1? "range").mapM? fun e =>
+      match e with
+      | .list [lo, hi] => do some (← lo.asRat?, ← hi.asRat?)
+      | _ => none
+    let rules ← (← s.field1? "rules").mapM? fun e =>
+      match e with
+      | .list [boxes, subs] => do
+        let bs ← boxes.mapM? fun b => (boxOfRaw n) <$> b.mapM? parseRawEntry
+        let sm ← subs.mapM? parsePair
+        some ((bs, subsOfRaw sm) : Rule)
+      | _ => none
+    let result ← (s.field? "result")
+    if result.head? != some (Sexp.atom "ok") then
+      some { corr := none, oracle := some false, nontrivial := false, cls := "build-failed", tags := ["build-failed"],
+             detail := toString (Sexp.list result) }
+    else do
+    let impl := Sexp.list (← s.field? "impl")
+    let features ← (← impl.field1? "features").mapM? fun e =>
+      match e with
+      | .list [_, ls] => ls.mapM? Sexp.asNat?
+      | _ => none
+    let records ← (← impl.field1? "records").mapM? parseRecord
+    let lookups ← (← impl.field1? "lookups").mapM? fun e => e.mapM? parsePair
+    let boxes := rules.flatMap (·.1)
+    let pts := cellPoints n range boxes
+    let keys := keysOf rules
+    let fontMap (p : Point) (g : Nat) : Nat := applyLookups lookups (activeLookups features records p) g
+    let specMap (p : Point) (g : Nat) : Nat := (effective (activeSubs rules p) g).getD g
+    -- model of the whole pipeline: overlay (Nat rank) + fontbe's sorted lookups
+    let mOut := (overlayFeatureVariations natOps n rules).getD []
+    let mRecs := assembleRecords (mOut.map fun (b, ms) => (toCondSet range b, ms))
+    let collision := mRecs.length < mOut.length
+    let modelMap (p : Point) (g : Nat) : Nat :=
+      match mRecs.find? fun r => r.1.all (condHolds p) with
+      | some r => applySortedMaps r.2 g
+      | none => g
+    let corrBad := pts.find? fun p => keys.any fun g => fontMap p g != modelMap p g
+    let bad := pts.filter fun p => keys.any fun g => fontMap p g != specMap p g
+    let anyConflict := pts.any fun p => conflicting keys (activeSubs rules p)
+    let cls := match bad with
+      | [] => if corrBad.isNone then "" else "model-vs-font"
+      | p :: _ => if conflicting keys (activeSubs rules p) then "precedence-e2e"
+                  else if collision then "condset-collision" else "e2e-wrong"
+    let detail :=
+      (match corrBad with
+       | some p => s!"corr-point={showPoint p} font={keys.map (fontMap p)} model={keys.map (modelMap p)} "
+       | none => "") ++
+      (match bad with
+       | p :: _ => s!"oracle-point={showPoint p} keys={keys} font={keys.map (fontMap p)} spec={keys.map (specMap p)} active={showMaps (activeSubs rules p)} nbad={bad.length}/{pts.length}"
+       | [] => "")
+    some { corr := some corrBad.isNone, oracle := some bad.isEmpty, nontrivial := rules.length ≥ 2 && records.length ≥ 2,
+           cls := cls,
+           tags := [s!"axes{n}", s!"rules{rules.length}", s!"records{if records.length ≥ 6 then "6+" else toString records.length}"] ++
+             (if conflictMode then ["conflict-mode"] else []) ++ (if anyConflict then ["conflict"] else []) ++
+             (if collision then ["condset-collision"] else []),
+           detail := detail }
+  r.getD (badInput "c16e2e: cannot parse case")
+
+end Fontc.Driver.C16
